@@ -210,6 +210,8 @@ package orda
 //@ pred valuesTimed(L *listSnapshot) = forall n *orderedNode :: {n.$list} inList(L, n) && n != on(L.head) ==> tnOf(n).T != nil && validTS(tnOf(n).T)
 //@ pred valuesAlloc(L *listSnapshot) = forall n *orderedNode :: {n.$list} inList(L, n) && n != on(L.head) ==> allocated(tnOf(n).T)
 //@ pred valuesWF(L *listSnapshot) = tnOf(on(L.head)).V == nil && valuesTimed(L) && valuesAlloc(L)
+// no value cell is shared by two elements (every insert links fresh cells)
+//@ pred ttInj(L *listSnapshot) = forall n *orderedNode, m *orderedNode :: {n.$list, m.$list} inList(L, n) && inList(L, m) && n != m ==> n.timedType != m.timedType
 //@ pred listWF(L *listSnapshot) = linkWF(L) && indexWF(L) && keyTie(L) && valuesWF(L) && L.BaseDatatype != nil
 
 //@ func (*orderedNode).insertNext
@@ -282,13 +284,18 @@ package orda
 //@   requires headWF(its) && nodesWF(its) && indexWF(its) && valuesWF(its) && its.BaseDatatype != nil && validTS(ts)
 //@   requires len(values) == len(targets) && (forall v in values :: v != nil)
 //@   requires forall t in targets :: t != nil && t != ts && allocated(t) && keyOf(t) != on(its.head).$key
+//@   requires[value-cells-not-shared] ttInj(its)
+//@   requires[an-operation-names-each-element-once] forall a int, b int :: 0 <= a && a < b && b < len(targets) ==> keyOf(targets[a]) != keyOf(targets[b])
 //@   loop 0 invariant valuesWF(its) && validTS(ts) && ts.Era == old(ts.Era) && ts.Lamport == old(ts.Lamport) && ts.CUID == old(ts.CUID)
 //@   loop 0 invariant forall n *orderedNode :: {n.$list} inList(its, n) && old(tombN(n)) ==> tombN(n) && tnOf(n).T == old(tnOf(n).T)
 //@   loop 0 invariant[a] forall n *orderedNode :: {n.$list} inList(its, n) && !old(tombN(n)) ==> !tombN(n)
 //@   loop 0 invariant[b] forall n *orderedNode :: {n.$list} inList(its, n) && !old(tombN(n)) && tnOf(n).T == old(tnOf(n).T) ==> tnOf(n).V == old(tnOf(n).V)
 //@   loop 0 invariant[c] forall n *orderedNode :: {n.$list} inList(its, n) && !old(tombN(n)) && tnOf(n).T != old(tnOf(n).T) ==> tsLess(old(tnOf(n).T), tnOf(n).T)
 //@   loop 0 invariant[d] forall n *orderedNode :: {n.$list} inList(its, n) && !old(tombN(n)) && tnOf(n).T != old(tnOf(n).T) ==> tsSame(tnOf(n).T, ts)
+//@   loop 0 invariant[done-so-far] forall j int :: 0 <= j && j <= rangeindex && keyOf(targets[j]) in its.Map && !old(tombN(on(its.Map[keyOf(targets[j])]))) && tsLess(old(tnOf(on(its.Map[keyOf(targets[j])])).T), ts) ==> tsSame(tnOf(on(its.Map[keyOf(targets[j])])).T, ts) && tnOf(on(its.Map[keyOf(targets[j])])).V == values[j]
+//@   loop 0 invariant[not-yet] forall j int :: rangeindex < j && j < len(targets) && keyOf(targets[j]) in its.Map ==> tnOf(on(its.Map[keyOf(targets[j])])).T == old(tnOf(on(its.Map[keyOf(targets[j])])).T) && tnOf(on(its.Map[keyOf(targets[j])])).V == old(tnOf(on(its.Map[keyOf(targets[j])])).V)
 //@   ensures[values-wf]           valuesWF(its)
+//@   ensures[every-older-live-target-gets-the-update] forall j int :: 0 <= j && j < len(targets) && keyOf(targets[j]) in its.Map && !old(tombN(on(its.Map[keyOf(targets[j])]))) && tsLess(old(tnOf(on(its.Map[keyOf(targets[j])])).T), ts) ==> tsSame(tnOf(on(its.Map[keyOf(targets[j])])).T, ts) && tnOf(on(its.Map[keyOf(targets[j])])).V == values[j]
 //@   ensures[tombstones-stay]     forall n *orderedNode :: {n.$list} inList(its, n) && old(tombN(n)) ==> tombN(n) && tnOf(n).T == old(tnOf(n).T)
 //@   ensures[newest-update-wins]  forall n *orderedNode :: {n.$list} inList(its, n) && !old(tombN(n)) ==> !tombN(n) && (tnOf(n).T == old(tnOf(n).T) ? tnOf(n).V == old(tnOf(n).V) : tsLess(old(tnOf(n).T), tnOf(n).T) && tsSame(tnOf(n).T, ts))
 //@   modifies timedNode.V, timedNode.T, Timestamp.Delimiter @ ts, alloc
